@@ -1338,11 +1338,10 @@ theorem decodedValue_of_val (reg : List (Str × DecK)) (rb : ReqBody) (ct : Str)
     | cons _ _ => rfl
   simp [ht, hc', hs, hsch, hdec]
 
-/-- outside `NoBodyEncoder`, where defaults are neutral and inside the model, `ValidateRequestBody` answers the same
-with and without default-setting -/
+/-- where defaults are neutral and inside the model, `ValidateRequestBody` answers the same with and without
+default-setting -/
 theorem validateRequestBodyD_eq (reg : List (Str × DecK)) (rb : ReqBody) (ct : Str) (b : BodyIn) (exro ds : Bool)
     (hmod : validateRequestBodyD reg rb ct b exro ds ≠ .unmodelled)
-    (h2 : exclNoBodyEncoder reg rb ct b exro ds = false)
     (hn : caseNeutral reg rb ct b exro ds = true) (hw : caseWF reg rb ct b = true) :
     validateRequestBodyD reg rb ct b exro ds = validateRequestBody reg rb ct b exro := by
   unfold validateRequestBodyD validateRequestBody at *
@@ -1373,14 +1372,11 @@ theorem validateRequestBodyD_eq (reg : List (Str × DecK)) (rb : ReqBody) (ct : 
           simp only [Bool.not_true, Bool.false_eq_true, if_false] at hmod ⊢
           unfold caseNeutral at hn
           unfold caseWF at hw
-          unfold exclNoBodyEncoder at h2
-          simp only [hdv, Bool.not_true, Bool.false_or, Bool.true_and, Bool.and_eq_true] at hn hw h2
+          simp only [hdv, Bool.not_true, Bool.false_or, Bool.and_eq_true] at hn hw
           have hvis := visD_neutral exro s v hw.1 hw.2 hn
-          by_cases hu : (dfltUnderNot s || (!hasEncoder (lookup (base ct) reg) && nestedDflt s && firesD exro s v)) = true
+          by_cases hu : dfltUnderNot s = true
           · simp [hu] at hmod
-          · simp only [hu, if_false]
-            have h2' : (firesD exro s v && !hasEncoder (lookup (base ct) reg)) = false := by
-              cases hf : firesD exro s v <;> cases he : hasEncoder (lookup (base ct) reg) <;> simp_all
+          · simp only [hu, Bool.false_eq_true, if_false]
             cases hx : visD true exro s v with
             | none =>
               rw [hx] at hvis
@@ -1389,6 +1385,6 @@ theorem validateRequestBodyD_eq (reg : List (Str × DecK)) (rb : ReqBody) (ct : 
             | some v' =>
               rw [hx] at hvis
               simp only [Option.isSome_some] at hvis
-              simp [← hvis, h2']
+              simp [← hvis]
 
 end KinModel.Body
